@@ -7,7 +7,7 @@ from dataclasses import dataclass
 from typing import Callable, Dict, FrozenSet, Iterable, List, Optional, Set, Tuple
 
 from .cfg import CFG, Node
-from .defuse import Resolver, is_sym, key, show, strip_norm
+from .defuse import Resolver, is_sym, key, show, strip_norm, sym
 from .model import AnalysisInconclusive, Callee, ClassInfo, FunctionInfo, Program
 
 
@@ -311,6 +311,20 @@ class FV:
                     here = [(r, p) for r, p, br in self.atoms_at(d)]
                     for conds, val in self.alternatives(self.cfg.nodes[d].ast.value, d, depth + 1):
                         out.append((here + conds, val))
+                return out
+            if simple and len(defs) > len(simple) and all(self.cfg.nodes[d].kind in ("for", "entry") for d in defs if d not in simple):
+                # a loop element / parameter that is conditionally replaced: the binding itself is one alternative
+                out = []
+                for d in defs:
+                    dn = self.cfg.nodes[d]
+                    if d in simple:
+                        here = [(r, p) for r, p, br in self.atoms_at(d)]
+                        for conds, val in self.alternatives(dn.ast.value, d, depth + 1):
+                            out.append((here + conds, val))
+                    else:
+                        nxt = [s_ for s_, lab in dn.succ if lab not in ("done", "exc")]
+                        val = self.res.resolve(expr, nxt[0]) if nxt and self.cfg.reaching()[nxt[0]].get(expr.id) == frozenset([d]) else sym("def", ast.Constant(value=f"{dn.kind}@{d}"), ast.Name(id=expr.id, ctx=ast.Load()))
+                        out.append(([], val))
                 return out
             return [([], self.res.resolve(expr, at))]
         if isinstance(expr, ast.Call):
